@@ -50,6 +50,16 @@ CHECKS = {
                 'createHeader / forceId, and no create entry point can re-run a creating constructor on an existing entity. '
                 'Collision probability is not decided.',
     },
+    'C13': {
+        'technique': 'static analysis: dominance/guard-fact rules at every ticks / sampling-interval sink call site, linear-form check '
+                     'of the append index, default-vs-guard agreement, who-touches-raw-group rule, abstract interpretation of the '
+                     'alias preconditions and of createDimensionGroup',
+        'text': 'Decides structural necessary conditions of C13: gap-free numbering (append index = dimensionCount()+1, backend bounds '
+                '0 < index <= count+1, delete-all covers count..1), "whichever entry point" for sorted ticks and positive intervals '
+                '(every front-end sink call site is guarded), optional parameters stored iff not default (negative offsets), alias '
+                'preconditions and redirection of every label/unit/ticks accessor. Value equality on read-back and ticks written '
+                'through the aliased array are not decided.',
+    },
 }
 
 _NYI = 'check not built yet in this session (planned in DESIGN.md); not claimed until its rule runs and is validated'
